@@ -198,8 +198,36 @@ fn build(t: &Tpl, pos: u8, env: &HashMap<String, String>) -> (Vec<String>, Optio
     }
 }
 
+
+/// Long values and long argument lists: what is bound must still be the value, whole and once.
+fn scale(w: &mut Worker) {
+    let sizes: Vec<usize> = w.tier.pick(vec![300, 70_000], vec![300, 8192, 70_000, 1_000_003]);
+    for &n in &sizes {
+        // a value of n characters made of the characters binding must not interpret
+        let unit = "ab ${v} %{w} \\ # \" x";
+        let mut text = format!("{}\nlen = length ${{s}}\nwhile less_than ${{len}} {}\ns = set ${{s}}${{s}}\nlen = length ${{s}}\nend\n", render::line(Some("s"), "set", &[unit]), n);
+        text.push_str("v = set short\nw = set \"p q\"\nx = set ${s}\nsame = equals ${x} ${s}\ny = set pre${s}post\nyl = length ${y}\nwant = calc ${len} + 7\nfits = equals ${yl} ${want}\narr = array ${s} ${s}\nan = array_length ${arr}\nfirst = array_get ${arr} 0\nsame_item = equals ${first} ${s}\nrelease ${arr}\ns = set done\nx = set done\ny = set done\nfirst = set done");
+        scale_case(w, &format!("long-value chars {}", n), &text, &[("same", Some("true".into())), ("fits", Some("true".into())), ("an", Some("2".into())), ("same_item", Some("true".into()))]);
+    }
+    let counts: Vec<usize> = w.tier.pick(vec![300, 3000], vec![300, 3000, 30000]);
+    for &n in &counts {
+        // n words spread by %{..} are n arguments; n arguments written out are n arguments
+        let text = format!(
+            "words = set w\ni = set 1\nwhile less_than ${{i}} {n}\ni = calc ${{i}} + 1\nwords = set \"${{words}} w${{i}}\"\nend\narr = array %{{words}}\nan = array_length ${{arr}}\nlast = array_get ${{arr}} {last}\narr2 = array head %{{words}} ${{undefined}} tail\nan2 = array_length ${{arr2}}\nrelease ${{arr}}\nrelease ${{arr2}}\nwords = set done",
+            n = n,
+            last = n - 1
+        );
+        scale_case(w, &format!("wide-spread words {}", n), &text, &[("an", Some(n.to_string())), ("last", Some(format!("w{}", n))), ("an2", Some((n + 3).to_string()))]);
+        let args: Vec<String> = (1..=n).map(|i| format!("a{}", i)).collect();
+        let refs: Vec<&str> = args.iter().map(|s| s.as_str()).collect();
+        let text = format!("{}\nan = array_length ${{arr}}\nlast = array_get ${{arr}} {}\nrelease ${{arr}}", render::line(Some("arr"), "array", &refs), n - 1);
+        scale_case(w, &format!("long-line arguments {}", n), &text, &[("an", Some(n.to_string())), ("last", Some(format!("a{}", n)))]);
+    }
+}
+
 pub fn worker(w: &mut Worker) {
     let tier = w.tier;
+    scale(w);
     let mut rig = Rig::new();
     let mut templates: Vec<Tpl> = vec![];
     for t in Strings::new(&PIECES[..], 1, 3) {
@@ -358,6 +386,9 @@ fn classify(t: &Tpl, _v: Option<&str>, got: &[String], exp: &[String]) -> String
 }
 
 pub fn replay(case: &Value) -> Result<String, String> {
+    if let Some(r) = scale_replay(case) {
+        return r;
+    }
     let args: Vec<String> = case["written"]
         .as_array()
         .ok_or("no written")?
